@@ -81,6 +81,53 @@ pub fn search_roots(seed: u64, n: usize, h: &ZobristHasher, rich_only: bool) -> 
     out
 }
 
+/// Roots on which iterative deepening gets very deep within an ordinary time slice.
+pub fn deep_iteration_roots(seed: u64, n: usize, h: &ZobristHasher) -> Vec<Root> {
+    let mut rng = Rng::stream(seed, 0xDEE9);
+    let mut out = Vec::new();
+    let bases = [
+        "8/8/8/3k4/8/3K4/3Q4/8 w - -", "4k3/8/8/8/8/8/3Q4/4K3 b - -", "4k3/8/8/8/8/8/3R4/4K3 b - -", "4K3/8/8/8/8/2rr4/8/4k3 w - -",
+        "8/8/8/3k4/8/3K4/3R4/8 w - -", "8/8/8/3k4/8/3K4/8/8 w - -", "7k/8/4K3/8/8/8/8/6Q1 w - -", "6k1/5ppp/8/8/8/8/5PPP/3R2K1 w - -",
+        "8/8/8/8/8/k7/p7/K7 b - -", "k7/p7/8/8/8/8/P7/K7 w - -", "8/8/4k3/8/8/4K3/4P3/8 w - -", "2k5/ppp5/8/8/8/8/PPP2Q2/2K4R b - -",
+    ];
+    let mut guard = 0;
+    while out.len() < n && guard < n * 10 {
+        guard += 1;
+        let base = Pos::parse_fen(bases[rng.below(bases.len() as u64) as usize]).unwrap();
+        // some free play, then one or two shuffle cycles so that repetition draws are on offer
+        let mut hist = make_history(&base, &mut rng, 12, 0, 0);
+        let cycles = if rng.chance(1, 5) { 0 } else { 1 + rng.below(3) as usize };
+        if cycles > 0 {
+            if let Some(cyc) = find_cycle(&hist.end, &mut rng) {
+                let mut p = hist.end.clone();
+                for _ in 0..cycles {
+                    for m in cyc {
+                        hist.moves.push(m);
+                        p = apply(&p, m);
+                    }
+                }
+                // stop in the middle of the last cycle now and then: the side to move can then repeat at once
+                if rng.chance(2, 3) {
+                    hist.moves.pop();
+                    let mut q = hist.start.clone();
+                    for m in &hist.moves {
+                        q = apply(&q, *m);
+                    }
+                    p = q;
+                }
+                hist.end = p;
+            }
+        }
+        if !has_legal_move(&hist.end) {
+            continue;
+        }
+        if let Ok(r) = make_root(hist, h) {
+            out.push(r);
+        }
+    }
+    out
+}
+
 /// Checks that apply to any single run of the search (used by C07 and C18).
 pub struct RunFacts {
     pub events: Vec<NEv>,
@@ -333,6 +380,34 @@ pub fn run_c07(tier: Tier, seed: u64) -> i32 {
         run.acc.merge(a, &["max_ply_seen"]);
     }
     run.set("roots", json!(roots.len()));
+    // Deep iterations: roots whose iterations are cheap (a repetition draw is available to a
+    // lost side, a forced mate, bare kings) are searched with an iteration limit of 99 and the
+    // allowance expiring after a budget of clock queries, so that the per-ply tables and the
+    // null-move ply offset are exercised at iteration depths a time slice really reaches on
+    // such positions. Same checks as any other run (no panic, legal sends, record restored).
+    let deep = deep_iteration_roots(seed, tier.pick(200, 2000), &h);
+    let budget = tier.pick(150_000u64, 600_000);
+    let results = par::par_map(deep.len(), |j| {
+        let root = &deep[j];
+        let mut acc = Acc::new();
+        let r = run_search(&root.board, &root.table, Some(budget), 99);
+        acc.evaluations += 1;
+        acc.count("deep_iteration_runs", 1);
+        acc.max("deep_max_iteration_reached", r.report.depth_started as u64);
+        acc.max("deep_max_ply_seen", r.report.max_ply.max(0) as u64);
+        if r.report.depth_started >= 30 {
+            acc.feature("iteration_30_or_deeper_reached");
+            acc.distinct.insert(hash64(&format!("deep|{}", root.hist.command())));
+        }
+        if j < 2 {
+            acc.sample(json!({"deep_iteration_root": truncate(&root.hist.command(), 200), "iterations_reached": r.report.depth_started, "max_ply_seen": r.report.max_ply, "clock_queries": r.report.queries}));
+        }
+        check_run("C07", root, 99, Some(budget), &r, &mut acc);
+        acc
+    });
+    for a in results {
+        run.acc.merge(a, &["max_ply_seen", "deep_max_iteration_reached", "deep_max_ply_seen"]);
+    }
     super::timed::c07_schedules(&mut run);
     run.floor_distinct = 1000;
     run.finish()
